@@ -49,12 +49,21 @@ type ObjDump struct {
 	Names    []string // ListAttributes
 	NamesErr string
 	Children []string
+	// Partial (C01): blocks read with ReadSlice, compared with the written values
+	Parts    []PartRead
 	SliceErr string // ReadSlice of a centre block (Extra)
 	SliceSum string // digest of the values ReadSlice returned (Extra)
 	IterErr  string // chunk iterator pass (Extra)
 }
 
 // Dump is the logical content of a file as observed through the public read API.
+// PartRead is one ReadSlice call and what it returned.
+type PartRead struct {
+	Start, Count []uint64
+	Vals         []float64
+	Err          string
+}
+
 type Dump struct {
 	OpenErr string
 	Panic   string
@@ -126,6 +135,9 @@ type DumpOpts struct {
 	// Extra also exercises ReadSlice of a centre block and a full chunk-iterator
 	// pass (used by the robustness check; results are not compared).
 	Extra bool
+	// Partial also reads blocks of every numeric dataset with ReadSlice (the
+	// other read the library offers for them) and keeps the values.
+	Partial bool
 }
 
 // DumpFile opens path and reads everything reachable.
@@ -293,6 +305,50 @@ func dumpDataset(f *hdf5.File, v *hdf5.Dataset, od *ObjDump, o DumpOpts) {
 		}
 		od.Comp = x
 	}()
+	if o.Partial && od.F64 != nil && len(od.Dims) > 0 && len(od.Dims) <= 4 {
+		blocks := func() [][2][]uint64 {
+			var out [][2][]uint64
+			for variant := 0; variant < 3; variant++ {
+				st := make([]uint64, len(od.Dims))
+				ct := make([]uint64, len(od.Dims))
+				total := uint64(1)
+				for i, d := range od.Dims {
+					switch variant {
+					case 0: // centre block
+						st[i], ct[i] = d/4, max(d/2, 1)
+					case 1: // block ending at the last element
+						ct[i] = max(d-d/3, 1)
+						st[i] = d - ct[i]
+					default: // everything
+						st[i], ct[i] = 0, d
+					}
+					for total*ct[i] > 8192 && ct[i] > 1 {
+						ct[i] = (ct[i] + 1) / 2
+					}
+					total *= ct[i]
+				}
+				out = append(out, [2][]uint64{st, ct})
+			}
+			return out
+		}()
+		for _, b := range blocks {
+			pr := PartRead{Start: b[0], Count: b[1]}
+			func() {
+				defer recoverTo(&pr.Err)
+				res, err := v.ReadSlice(b[0], b[1])
+				if err != nil {
+					pr.Err = err.Error()
+					return
+				}
+				if f, ok := res.([]float64); ok {
+					pr.Vals = f
+				} else {
+					pr.Err = fmt.Sprintf("ReadSlice returned %T", res)
+				}
+			}()
+			od.Parts = append(od.Parts, pr)
+		}
+	}
 	if !o.Extra {
 		return
 	}
